@@ -12,7 +12,8 @@ REPO ?= /repo
 CXXFLAGS := -std=c++17 -O1 -g -fno-omit-frame-pointer $(SAN) -Wall -Wextra -Wno-unused-parameter \
    -I$(REPO)/include -I$(B)/include -I$(B) -Isrc
 WRAPS := socket bind listen accept connect getsockname getpeername setsockopt getsockopt ioctl close send sendmsg recv recvmsg \
-   epoll_create1 epoll_ctl epoll_wait select timerfd_create timerfd_settime read coap_malloc_type coap_realloc_type coap_free_type exit coap_pdu_parse
+   epoll_create1 epoll_ctl epoll_wait select timerfd_create timerfd_settime read coap_malloc_type coap_realloc_type coap_free_type exit coap_pdu_parse \
+   fopen fclose fflush fwrite fprintf rename remove
 WRAPFLAGS := $(foreach s,$(WRAPS),-Wl,--wrap=$(s))
 # reference models written in parallel are only compiled once marked ready (src/<name>.ready)
 WIP := $(foreach n,r9 r10 r11,$(if $(wildcard src/$(n).ready),,src/$(n).cpp))
